@@ -923,3 +923,16 @@ impl<W, R, T> CompilationScope<'_, W, R, T> {
         Ok(ret)
     }
 }
+
+/// verification hook (cfg(xray_verif) only): `parse_expr` is private to this module, the external
+/// verification harness needs the static expression tree it builds (see builtin/verif_hooks/parse.rs)
+#[cfg(xray_verif)]
+impl<W, R, T> CompilationScope<'_, W, R, T> {
+    pub(crate) fn verif_parse_expr(
+        &mut self,
+        input: Pair<Rule>,
+        interner: &mut Interner,
+    ) -> Result<XStaticExpr<W, R, T>, TracedCompilationError> {
+        self.parse_expr(input, interner)
+    }
+}
